@@ -5,7 +5,7 @@ from ..cfg import CFG
 from ..index import AnchorVanished, Undecided
 from ..match import (src, dotted, walk_local, walk_unit, calls_in, const, NOCONST, is_none,
                      assigned_targets, callee_attr, receiver, mentions, shape, shape_prefix, Hole,
-                     shape_text, FUNC_TYPES, eval_small, UNKNOWN, Unknown)
+                     shape_text, FUNC_TYPES, eval_small, UNKNOWN, Unknown, is_noise)
 
 _cfg_cache = {}
 
@@ -28,8 +28,7 @@ def helper_inliner(unit):
         m = idx.find_method(ci, parts[1])
         if m is None or isinstance(m.node, ast.Lambda):
             return None
-        body = [st for st in m.node.body
-                if not (isinstance(st, ast.Expr) and isinstance(st.value, ast.Constant) and isinstance(st.value.value, str))]
+        body = [st for st in m.node.body if not is_noise(st)]
         if len(body) == 1 and isinstance(body[0], ast.Return) and body[0].value is not None:
             if len(m.params) == 1:
                 return body[0].value
